@@ -46,6 +46,15 @@ pub fn prelude(p: &Program) -> String {
     s
 }
 
+/// the prelude as separate top-level statements with the name each declares
+pub fn prelude_statements(p: &Program) -> Vec<(String, String)> {
+    let mut out = vec![("log := mut [int] [0; 0];".to_string(), "log".to_string())];
+    for (n, t) in p.tick_types.iter().enumerate() {
+        out.push((format!("tk{n} := (k: int, v: {}) -> {} {{ log += [k]; return v; }};", t.print(), t.print()), format!("tk{n}")));
+    }
+    out
+}
+
 pub fn result_expr(p: &Program) -> Expr {
     let mut items = vec![Expr::Int(0), Expr::Deref(Box::new(Expr::Var("log".into())))];
     for (n, _) in &p.observed {
